@@ -176,14 +176,19 @@ def order_shard(args):
     from msg_common import build_msg_server, run_server
     exe, seed, ncases = args
     rng = random.Random(seed)
-    lines, plan = [], []
+    plines, pplan = [[] for _ in range(5)], [[] for _ in range(5)]
     stats = {'evaluations': 0, 'nontrivial': 0, 'order_cases': 0, 'order_permutations': 0, 'samples': []}
     for case in range(ncases):
         # independent template lines (no template refers to another one)
         tmpls = []
         for i in range(rng.randrange(3, 7)):
             typ, dv = rng.choice(FTYPES)
-            tmpls.append(('t%d' % i, typ, dv, 't%d,%s,%s,u%d,tc%d' % (i, typ, dv, i, i)))
+            tmpls.append(('t%d' % i, typ, dv, 't%d,%s,%s,,u%d,tc%d' % (i, typ, dv, i, i)))
+        # templates of one base type that differ only in their value range (the derived types must not be mixed up)
+        if rng.random() < 0.6:
+            typ = rng.choice(['UCH', 'UIN', 'SCH', 'ULG'])
+            for i, rg in enumerate(rng.sample(['1-3', '5-9', '0-100', '2-2', '10-20'], rng.randrange(2, 4))):
+                tmpls.append(('g%d' % i, typ, '', 'g%d,%s,,%s,ug,range %s' % (i, typ, rg, rg)))
         msgs = []
         for k in range(rng.randrange(4, 9)):
             fields, nbytes = [], 0
@@ -199,7 +204,7 @@ def order_shard(args):
                 nbytes += NB[typ]
             wr = rng.random() < 0.3
             line = '%s,oc,m%d,,,08,b509,%s%02x,%s' % ('w' if wr else 'r', k, '0e' if wr else '0d', k, ','.join(fields))
-            data = bytes(rng.choice([rng.randrange(256), 0x01, 0x12, 0x50]) for _ in range(nbytes))
+            data = bytes(rng.choice([rng.randrange(256), 0x01, 0x12, 0x50, 0x02, 0x07, 0x00]) for _ in range(nbytes))
             msgs.append((k, wr, line, data))
         perms = [(list(tmpls), list(msgs))]
         for _ in range(3):
@@ -208,8 +213,9 @@ def order_shard(args):
             perms.append((a, b))
         perms.append((list(reversed(tmpls)), list(reversed(msgs))))
         for pi, (tl, ml) in enumerate(perms):
+            lines, plan = plines[pi], pplan[pi]      # every permutation number runs in a process of its own (derived types are cached per process)
             mp = 'o%d_%d' % (case, pi)
-            lines.append('TEMPL\t' + esc('#\n' + '\n'.join(t[3] for t in tl) + '\n'))
+            lines.append('TEMPL\t' + esc('name,*type,divisor/values,range,unit,comment\n' + '\n'.join(t[3] for t in tl) + '\n'))
             plan.append(('templ', case, pi, None))
             lines.append('NEW\t' + mp)
             plan.append((None, case, pi, None))
@@ -233,10 +239,14 @@ def order_shard(args):
             plan.append((None, case, pi, None))
         stats['order_cases'] += 1
         stats['order_permutations'] += len(perms)
-    rc, out, err = run_server(exe, lines)
     viol = []
-    if rc != 0 or len(out) != len(plan):
-        return stats, viol, (rc if rc else -1, 'msg_server output lines %d != expected %d\n' % (len(out), len(plan)) + err[-6000:])
+    plan, out = [], []
+    for pi in range(5):
+        rc, o, err = run_server(exe, plines[pi])
+        if rc != 0 or len(o) != len(pplan[pi]):
+            return stats, viol, (rc if rc else -1, 'msg_server output lines %d != expected %d\n' % (len(o), len(pplan[pi])) + err[-6000:])
+        plan += pplan[pi]
+        out += o
     base = {}
     for (kind, case, pi, what), f in zip(plan, out):
         if kind is None:
